@@ -181,13 +181,13 @@ CHECKS["C01"] = {
 CHECKS["C14"] = {
     "corpus": True,
     "assert_filter": r"C14\.",
-    "runs": _C01_RUNS,
-    "expect_asserts": [r"C14\.F1\.tree-and-globals-read-only/CallExpr", r"C14\.F1\.tree-and-globals-read-only/LiteralExpr", r"C14\.F1\.tree-and-globals-read-only/StmtsStmt"],
+    "runs": _C01_RUNS + [R("./vm", {"fn": r"^ZZ_C14_import_copies$"})],
+    "expect_asserts": [r"C14\.F2\.no-alias-to-shared-state/AddrExpr", r"C14\.F3\.other-importer-unaffected", r"C14\.F1\.tree-and-globals-read-only/CallExpr", r"C14\.F1\.tree-and-globals-read-only/LiteralExpr", r"C14\.F1\.tree-and-globals-read-only/StmtsStmt"],
     "bounds": {"F1": "every node kind with arbitrary children (the C01 step instances): the tree and every object that existed after package initialisation are frozen during RunContext"},
     "stubs": ["write barrier of the engine on Store / MapUpdate / delete / in-place append / reflect Set"],
     "assumptions": ["frame argument: no evaluation step writes the tree or process-wide state (F1) => runs on separate environments commute, so k sequential or concurrent runs of one tree give their solo results",
                     "run-time values referenced from literals (containers, pointers) are data, not syntax"],
-    "outside": ["goroutine interleavings under the race detector: replaced by the frame argument (not encoded)", "import copies and the determinism ledger (F3/F4) are not part of this check yet"],
+    "outside": ["goroutine interleavings under the race detector: replaced by the frame argument (not encoded)", "the determinism ledger (F4) is not part of this check"],
 }
 
 CHECKS["C04"] = {
@@ -223,4 +223,41 @@ CHECKS["C16"] = {
     "stubs": ["channels, select, goroutines: engine coroutine model of Go's specified channel semantics; a switch can happen at every channel operation and goroutine start"],
     "assumptions": ["`y = <-ch` is the receive statement (leaves y untouched on a closed channel); receive expressions are used inside other expressions"],
     "outside": ["all schedules the Go runtime produces across GOMAXPROCS: the runtime scheduler and its channel implementation are not encoded (not applicable to the technique)"],
+}
+
+CHECKS["C18"] = {
+    "corpus": True,
+    "witness_cmd": "c18_binary.py",
+    "runs": [R(".", {"fn": r"^ZZ_C18_"})],
+    "expect_asserts": [r"C18\.exit-0-iff-library-succeeds/.*", r"C18\.exit-4-on-parse-or-run-error/.*", r"C18\.exit-2-when-file-unreadable/.*", r"C18\.one-diagnostic-line/.*", r"C18\.trailing-arguments-become-args/.*", r"C18\.no-extra-output-on-success/.*"],
+    "bounds": {"scripts": "13 (succeeding with and without output, using args / core builtins / a bundled package / printf; three parse errors; three run errors; empty)", "modes": "-e and file, 0..2 trailing arguments, unreadable file",
+               "process level": "7 runs of the real built binary (exit status, stdout) as witnesses"},
+    "stubs": ["io/ioutil.ReadFile: the harness's virtual files", "fmt.Print*: recorded standard output", "os.Args / flag: a fresh FlagSet per run"],
+    "assumptions": ["the function-level verdict is the process's verdict: main() only passes the return code of runNonInteractive to os.Exit"],
+    "outside": ["interactive mode, terminal and pipe behaviour, signals", "scripts are enumerated (source text must be concrete for the parser); nothing is symbolic here"],
+}
+
+CHECKS["C03"] = {
+    "runs": [R("./parser", {"fn": r"^ZZ_C03_(operator_tokens|decimal_literals|hex_literals|binary_literals|int64_edge|float_and_malformed|string_literals|raw_string_literals|precedence_2|ternary)$"},
+                          {"fn": r"^ZZ_C03_", "wall_timeout": 10000})],
+    "expect_asserts": [r"C03\.operator/==/longest-match-token", r"C03\.int-literal/base10/exact-value", r"C03\.int-literal/base16/exact-value", r"C03\.int64-edge/not-representable-rejected",
+                       r"C03\.string-literal/denotes-exactly-what-is-written", r"C03\.precedence/\+,\*/same-tree-as-explicit-parentheses", r"C03\.ternary/same-tree-as-explicit-parentheses/.*"],
+    "bounds": {"quick": {"operators": "every spelling of the reference token table followed by an arbitrary ASCII rune (solver)", "integer literals": "1..4 symbolic decimal digits (+sign), 1..3 hex digits, 1..4 binary digits through the real scanner, grammar action and strconv.ParseInt (interpreted from its SSA); the int64 edge by an 18-digit prefix + symbolic last digit",
+                         "floats / malformed numbers": "17 concrete spellings", "strings": "0..3 symbolic characters incl. backslash, both quotes; raw strings", "precedence": "all ordered pairs of the 19 binary operators (incl. in and ??) x 5 statement contexts; 7 ternary shapes x every operator"},
+               "thorough": {"precedence": "all triples of operators; pairs with unary prefixes and postfix forms on the first two operands", "integer literals": "up to 6 decimal digits"}},
+    "stubs": ["strconv.ParseFloat: native on concrete spellings"],
+    "assumptions": ["symbolic characters are ASCII", "same tree => same value, so the interpreter is not needed for the precedence part"],
+    "outside": ["parser.go.y itself (the compiled tables of parser.go are what runs)", "expressions with more than 3 binary operators", "operator tokens are enumerated by forking; the solver's part is the literal arithmetic and the character classes"],
+}
+
+CHECKS["C11"] = {
+    "corpus": True,
+    "runs": [R("./vm", {"fn": r"^ZZ_C11_"})],
+    "expect_asserts": [r"C11\.convert/value-as-go-converts/int64->int8", r"C11\.convert/value-as-go-converts/float64->int32", r"C11\.convert-table/convertible-iff-go-converts/.*", r"C11\.call/fixed/integers-converted-as-go",
+                       r"C11\.call/variadic-spread/tail-elements", r"C11\.results/several-in-order", r"C11\.identity/define-get-same-pointer", r"C11\.method/pointer-receiver-called-with-receiver", r"C11\.callback/result-converted-to-declared-type"],
+    "bounds": {"conversion lemma": "symbolic int64 / float64 sources (plain and interface-wrapped) x 11 numeric target types; 21 rows of non-numeric pairs (nil -> zero value, element-wise slices and maps, 1-character strings, unconvertible pairs)",
+               "calls": "13 call shapes over host functions that record their arguments (fixed with six parameter types, variadic, variadic interface, slice parameter, spread, 0/1/2/3 results, (value, error))",
+               "identity / members": "13 cases over a struct pointer, a struct value, a typed slice, an error value", "callbacks": "7 cases over five Go func types"},
+    "stubs": [], "assumptions": ["an integer passed for a string parameter converts as Go's string(rune) does (that is Go's own conversion)", "float -> uint64 of out-of-range values is platform specific: not compared"],
+    "outside": ["signatures and named types not in the pool, unexported fields, channels of func", "the signature pool is enumerated; payloads are symbolic"],
 }
